@@ -180,8 +180,14 @@ def _check_minimize(prog, rep, fi, call):
         Vb |= flags
     rep.saw("bounds post-check loops", [f"{fname}:{lp.lineno}" for lp, _ in bl])
 
+    # locals that merely carry a violation flag on (`constraints_violated, worst = violated, w`): same boolean
+    alias_defs = {}
+    for nm, vals in assigns.items():
+        vs = [v for v in vals if isinstance(v, ast.AST)]
+        if nm not in flagsV | Vb and vs and all(isinstance(v, ast.Name) and v.id in flagsV | Vb for v in vs) and len({v.id for v in vs}) == 1:
+            alias_defs[nm] = atom(vs[0].id)
     for st, n in sites:
-        pc = path_condition(n)
+        pc = _subst(path_condition(n), alias_defs) if alias_defs else path_condition(n)
         key = own_test(n)
         # R06.1
         if flagsV:
@@ -226,20 +232,48 @@ def _check_minimize(prog, rep, fi, call):
         for x in ast.walk(lp):
             if isinstance(x, ast.Assign) and any(fc is x.value for fc in funcalls) and isinstance(x.targets[0], ast.Name):
                 vals.add(x.targets[0].id)
+        # which comparison decides "violated" for a record of each type: the loop body is walked with the record's
+        # type fixed; the tests taken on the way to `flag = True` are the verdict (shape of the ladder is free:
+        # `if type == .. and test:` arms, a local holding the type, a shared tail that sets the flag)
+        from ..scenario import Explorer
         seen_types = {}
-        for x in ast.walk(lp):
-            if isinstance(x, ast.If) and any(isinstance(y, ast.Assign) and isinstance(y.value, ast.Constant) and y.value.value is True and any(isinstance(t, ast.Name) and t.id in fl for t in y.targets) for y in x.body):
-                cs = conjuncts(x.test)
-                typ = None
-                cmp_ = None
-                for cj in cs:
-                    if isinstance(cj, ast.Compare) and src(cj.left) == f"{c}['type']" and isinstance(cj.comparators[0], ast.Constant):
-                        typ = cj.comparators[0].value
-                    else:
-                        cmp_ = cj
-                if typ is None or cmp_ is None:
-                    raise AnalysisError(f"{fname}: violation test `{src(x.test)}` not in the recognised form")
-                seen_types[typ] = (cmp_, x)
+        for typ in sorted(rec_types):
+            talias = {nm for st_ in ast.walk(lp) if isinstance(st_, ast.Assign) and src(st_.value).replace('"', "'") == f"{c}['type']" for nm in [t.id for t in st_.targets if isinstance(t, ast.Name)]}
+
+            def atom_truth(t, state, typ=typ, talias=talias):
+                if isinstance(t, ast.Compare) and len(t.ops) == 1 and isinstance(t.comparators[0], ast.Constant) and (src(t.left).replace('"', "'") == f"{c}['type']" or (isinstance(t.left, ast.Name) and t.left.id in talias)):
+                    hit = t.comparators[0].value == typ
+                    return hit if isinstance(t.ops[0], ast.Eq) else (not hit) if isinstance(t.ops[0], ast.NotEq) else None
+                return None
+
+            def on_stmt(st_, state):
+                if isinstance(st_, ast.Assign) and isinstance(st_.value, ast.Constant) and st_.value.value is True and any(isinstance(t, ast.Name) and t.id in fl for t in st_.targets):
+                    state["flag"] = True
+
+            def on_branch(t, val, state):
+                state["taken"].append((t, val))
+
+            try:
+                paths = Explorer(atom_truth, on_stmt, on_branch=on_branch).explore(lp.body, {"flag": False, "taken": []})
+            except Exception:
+                raise AnalysisError(f"{fname}: feasibility loop too branchy to interpret")
+            setting = [st_ for st_, _term in paths if st_["flag"]]
+            tests = []
+            for st_ in setting:
+                pos = [t for t, v in st_["taken"] if v]
+                neg = [t for t, v in st_["taken"] if not v]
+                if len(pos) == 1:
+                    tests.append(pos[0])
+                else:
+                    tests.append(None)
+            if not setting:
+                continue
+            if any(t is None for t in tests) or len({src(t) for t in tests}) != 1:
+                raise AnalysisError(f"{fname}: violation test for records of type {typ!r} not in the recognised form")
+            anchor = tests[0]
+            while not isinstance(anchor, ast.stmt):
+                anchor = anchor._parent
+            seen_types[typ] = (tests[0], anchor)
         for typ in sorted(rec_types):
             if typ not in seen_types:
                 rep.ob("R06.2", construct, False, f"records of type {typ!r} are built for the solver but never tested by the feasibility loop", loc=f"{fi.module.rel}:{lp.lineno}", detail=f"verdict:{typ}")
